@@ -54,11 +54,21 @@ func sessionKey(e lab.Ev) string {
 
 // runSessions executes the sessions on ONE fresh server instance in the given order.
 func runSessions(c isoCase, which []int, order []int) (map[int]*result, error) {
+	res, _, stop, err := runSessionsLive(c, which, order)
+	if stop != nil {
+		stop()
+	}
+	return res, err
+}
+
+// runSessionsLive also returns a function that re-collects the results (event pumps and
+// datagram handlers are asynchronous and have no completion signal) and one that stops
+// the instance.
+func runSessionsLive(c isoCase, which []int, order []int) (map[int]*result, func() map[int]*result, func(), error) {
 	in, err := svc.StartInstance([]string{c.Service})
 	if err != nil {
-		return nil, fmt.Errorf("infra: %v", err)
+		return nil, nil, nil, fmt.Errorf("infra: %v", err)
 	}
-	defer in.Srv.Stop()
 	type live struct {
 		se  *svc.Session
 		idx int
@@ -122,12 +132,22 @@ func runSessions(c isoCase, which []int, order []int) (map[int]*result, error) {
 		}
 	}
 	in.Cap.Settle(15*time.Millisecond, 400*time.Millisecond)
-	for _, i := range which {
-		se := opened[i]
-		if se == nil {
-			continue
+	collect := func() map[int]*result {
+		res := map[int]*result{}
+		for _, i := range which {
+			res[i] = &result{Closed: out[i].Closed}
+			collectOne(c, opened[i], res[i])
 		}
-		r := out[i]
+		return res
+	}
+	return collect(), collect, in.Srv.Stop, nil
+}
+
+func collectOne(c isoCase, se *svc.Session, r *result) {
+	{
+		if se == nil {
+			return
+		}
 		if c.UDP {
 			for _, d := range se.Dgrams {
 				var parts []string
@@ -152,7 +172,6 @@ func runSessions(c isoCase, which []int, order []int) (map[int]*result, error) {
 		sort.Strings(r.SessID)
 		r.Events = svc.Canon(evs, append([]string{"stacktrace"}, svc.SessionKeys...)...)
 	}
-	return out, nil
 }
 
 func checkIso(c isoCase) error {
@@ -162,21 +181,54 @@ func checkIso(c isoCase) error {
 	}
 	// reference: each session alone on a fresh instance
 	alone := map[int]*result{}
+	var recollect []func()
+	var stops []func()
+	defer func() {
+		for _, f := range stops {
+			f()
+		}
+	}()
 	for _, i := range all {
+		i := i
 		var ord []int
 		for range c.Sessions[i].Steps {
 			ord = append(ord, i)
 		}
-		r, err := runSessions(c, []int{i}, ord)
+		r, again, stop, err := runSessionsLive(c, []int{i}, ord)
+		if stop != nil {
+			stops = append(stops, stop)
+		}
 		if err != nil {
 			return err
 		}
 		alone[i] = r[i]
+		recollect = append(recollect, func() { alone[i] = again()[i] })
 	}
-	together, err := runSessions(c, all, c.Order)
+	together, againT, stopT, err := runSessionsLive(c, all, c.Order)
+	if stopT != nil {
+		stops = append(stops, stopT)
+	}
 	if err != nil {
 		return err
 	}
+	recollect = append(recollect, func() { together = againT() })
+	// asynchronous event pumps / datagram handlers: a difference must persist
+	var last error
+	for attempt := 0; attempt < 6; attempt++ {
+		if attempt > 0 {
+			time.Sleep(time.Duration(attempt) * 150 * time.Millisecond)
+			for _, f := range recollect {
+				f()
+			}
+		}
+		if last = compareIso(c, all, alone, together); last == nil {
+			return nil
+		}
+	}
+	return last
+}
+
+func compareIso(c isoCase, all []int, alone, together map[int]*result) error {
 	seenID := map[string]int{}
 	for _, i := range all {
 		a, t := alone[i], together[i]
